@@ -2,6 +2,7 @@ package interp
 
 import (
 	"go/token"
+	"strings"
 
 	"golang.org/x/tools/go/ssa"
 )
@@ -108,6 +109,7 @@ func (in *Interp) RunExplore(fn *ssa.Function) {
 	main := &G{id: 0}
 	in.gs = []*G{main}
 	in.cur = main
+	in.runInits(main, fn)
 	in.pushFrame(main, fn, nil, nil, nil)
 	cur := main
 	preempt := 0
@@ -155,5 +157,12 @@ func (in *Interp) RunExplore(fn *ssa.Function) {
 }
 
 func (in *Interp) reportDeadlock() {
-	in.Violations = append(in.Violations, Violation{Prop: "DEADLOCK", Msg: "all goroutines blocked", Prefix: append([]Dec{}, in.P.taken...)})
+	_, m := in.Sol.Check(nil, true, in.modelVars())
+	var where []string
+	for _, g := range in.gs {
+		if !g.done && g.top != nil && g.top.Fn != nil {
+			where = append(where, in.panicSite(g))
+		}
+	}
+	in.addViolation("DEADLOCK", "all goroutines blocked", m, false, strings.Join(where, ","))
 }
